@@ -207,6 +207,7 @@ struct Env {
     std::vector<HEv> hist;
     std::set<int> chainReqs;           // requests issued since the last fresh connect and not yet answered
     bool noSmDiscInChain = false;
+    bool lastSessionResumable = false;
 
     Env()
     {
@@ -322,7 +323,10 @@ struct Env {
     bool legal(const Sym &s) const
     {
         switch (s.kind) {
-        case Sym::Conn: return !open && (s.sm != 3 || client->smCanResume());
+        // a resumption continues the LATEST established session, which must have negotiated a resumable SM
+        // session (the library would attempt <resume/> whenever its canResume flag is set, a flag that can be stale
+        // after an intermediate session without SM; no server resumes a session older than the latest one)
+        case Sym::Conn: return !open && (s.sm != 3 || (client->smCanResume() && lastSessionResumable));
         case Sym::Drop: case Sym::Clean: return open;
         case Sym::Fail: return !open;
         default: return open;
@@ -362,11 +366,12 @@ struct Env {
             line = std::string("conn ") + names[s.sm] + " " + (s.auth ? "1" : "0");
             client->open(s.sm, s.auth);
             open = true;
+            if (s.sm != 3) lastSessionResumable = s.sm == 1;
             if (s.sm != 3) { freshConn = true; hist.clear(); hist.push_back({ HEv::Fresh }); chainReqs.clear(); noSmDiscInChain = false; }
             break;
         }
         case Sym::Drop: case Sym::Clean: case Sym::Fail: {
-            if (s.kind == Sym::Clean) client->streamClosed();
+            if (s.kind == Sym::Clean) { client->streamClosed(); lastSessionResumable = false; }
             if (s.kind == Sym::Fail) client->streamRestart();
             const bool en = client->smEnabled(), cr = client->smCanResume();
             line = std::string("disc ") + (en ? "1" : "0") + " " + (cr ? "1" : "0");
@@ -492,7 +497,7 @@ static bool simStep(SimState &st, const Sym &s)
         if (st.open || (s.sm == 3 && !st.canResume)) return false;
         st.open = true;
         if (s.sm == 1) st.canResume = true;
-        if (s.sm == 2) st.canResume = false;
+        if (s.sm == 0 || s.sm == 2) st.canResume = false;
         return true;
     case Sym::Drop: if (!st.open) return false; st.open = false; return true;
     case Sym::Clean: if (!st.open) return false; st.open = false; st.canResume = false; return true;
